@@ -38,7 +38,7 @@
      RefAt(p, pos)             a declaration of the current file that references p from the syntactic position pos:
                                parameter / result type, initial value of a package-level variable, a live type
                                declaration, a labeled statement, key / value of a map literal, index of a slice
-                               literal, the type of a composite literal, inside a function literal
+                               literal, the type of a composite literal, inside a function literal, the constraint of a type parameter
      Write(f)                  the file is written (and checked) now
    Deviation constants make the model behave like known defects of the implementation, so
    that TLC shows the property-level consequence (vacuity guard). *)
